@@ -212,11 +212,22 @@ def run_cases_parallel(named_bodies, timeout=900):
 
 
 def parse_eval_list(out):
-    """Parse the result of `Eval vm_compute in <list of ...>` printed as `= [a; b; ...] : type`.
-    Returns the raw text between '=' and the final ': type' with whitespace collapsed."""
-    res = []
-    for m in re.finditer(r"(?s)^\s*=\s(.*?)\n\s*:\s[^\n]*(?:\n\s+[^\n]*)*$", out, re.M):
-        res.append(re.sub(r"\s+", " ", m.group(1)).strip())
+    """Results of successive `Eval vm_compute in ...` commands, printed by coqc as
+         = <value (possibly several lines)>
+         : <type (possibly several lines)>
+    Returns the list of values with whitespace collapsed."""
+    res, cur, mode = [], None, None
+    for line in out.splitlines():
+        if re.match(r"^\s*= ", line) or line.strip() == "=":
+            if cur is not None:
+                res.append(re.sub(r"\s+", " ", " ".join(cur)).strip())
+            cur, mode = [re.sub(r"^\s*=\s?", "", line)], "val"
+        elif re.match(r"^\s*: ", line) and mode == "val":
+            mode = "type"
+        elif mode == "val":
+            cur.append(line)
+    if cur is not None:
+        res.append(re.sub(r"\s+", " ", " ".join(cur)).strip())
     return res
 
 
